@@ -339,3 +339,94 @@ Proof.
   induction l as [|o r IH]; intros w0 Hw0; cbn [fold_left]; [exact Hw0|].
   apply IH. unfold WF. cbn [w_outs with_outs]. rewrite cancel_entry_outs. now apply nodup_del.
 Qed.
+
+(* ------------------------------------------------------------------ scans keep keys below the counters *)
+(** where the records of a scanned wallet come from: the table before, or a restored chain output *)
+Definition key_origin (w : wallet) (ms : list cout) (o : orec) : Prop :=
+  (exists o0, In o0 (w_outs w) /\ r_key o0 = r_key o) \/ (exists d, In d ms /\ r_key o = co_key d).
+
+Lemma unspend_frame w o : w_ctxs (unspend w o) = w_ctxs w /\ w_child (unspend w o) = w_child w.
+Proof. unfold unspend, cancel_entry_of. destruct (r_tx o); [destruct (find _ _)|]; cbn; auto. Qed.
+
+Lemma fold_unspend_origin w0 ms : forall acc w,
+  (forall a, In a acc -> exists o0, In o0 (w_outs w0) /\ r_key o0 = r_key a) ->
+  (forall o, In o (w_outs w) -> key_origin w0 ms o) -> w_ctxs w = w_ctxs w0 -> w_child w = w_child w0 ->
+  let w' := fold_left unspend acc w in
+  (forall o, In o (w_outs w') -> key_origin w0 ms o) /\ w_ctxs w' = w_ctxs w0 /\ w_child w' = w_child w0.
+Proof.
+  induction acc as [|a r IH]; intros w Hacc Ho Hc Hch; cbn [fold_left]; [auto|].
+  destruct (unspend_frame w a) as [F1 F2].
+  apply IH; [intros x Hx; apply Hacc; now right| |congruence|congruence].
+  intros o Hin. rewrite unspend_outs in Hin. apply in_save_out in Hin as [->|Hin]; [|auto].
+  left. destruct (Hacc a (or_introl eq_refl)) as (o0 & A & B). exists o0. split; [exact A|].
+  destruct a; cbn in *. exact B.
+Qed.
+
+Lemma restore_missing_frame w d :
+  w_ctxs (restore_missing w d) = w_ctxs w /\ w_child (restore_missing w d) = w_child w.
+Proof. unfold restore_missing, next_log_id. cbn. auto. Qed.
+
+Lemma fold_restore_origin w0 ms0 : forall ms w,
+  (forall d, In d ms -> In d ms0) ->
+  (forall o, In o (w_outs w) -> key_origin w0 ms0 o) -> w_ctxs w = w_ctxs w0 -> w_child w = w_child w0 ->
+  let w' := fold_left restore_missing ms w in
+  (forall o, In o (w_outs w') -> key_origin w0 ms0 o) /\ w_ctxs w' = w_ctxs w0 /\ w_child w' = w_child w0.
+Proof.
+  induction ms as [|d r IH]; intros w Hsub Ho Hc Hch; cbn [fold_left]; [auto|].
+  destruct (restore_missing_frame w d) as [F1 F2]. destruct (restore_missing_outs w d) as (id & E & _).
+  apply IH; [intros x Hx; apply Hsub; now right| |congruence|congruence].
+  intros o Hin. rewrite E in Hin. apply in_save_out in Hin as [->|Hin]; [|auto].
+  right. exists d. split; [apply Hsub; now left|reflexivity].
+Qed.
+
+Lemma restore_indices_ctxs : forall found w, w_ctxs (restore_indices w found) = w_ctxs w.
+Proof.
+  induction found as [|kv r IH]; intros w; cbn [restore_indices fold_left]; [reflexivity|].
+  unfold restore_indices in IH. rewrite IH. destruct (_ <=? _); reflexivity.
+Qed.
+
+Theorem scan_repair_fresh w chain del : Fresh w -> Fresh (scan_repair w chain del).
+Proof.
+  intros [Hfo Hfc]. unfold scan_repair.
+  set (snap := w_outs w). set (acc := accidental snap chain). set (ms := missing snap chain).
+  set (w1 := fold_left unspend acc w). set (w2 := fold_left restore_missing ms w1).
+  assert (Hsnap : forall (l : list orec), (forall a, In a l -> In a snap) ->
+            forall a, In a l -> exists o0, In o0 (w_outs w) /\ r_key o0 = r_key a).
+  { intros l Hl a Ha. exists a. split; [apply Hl; exact Ha|reflexivity]. }
+  assert (H0 : forall o, In o (w_outs w) -> key_origin w ms o) by (intros o Ho; left; eauto).
+  destruct (fold_unspend_origin w ms acc w (Hsnap acc (fun a Ha => in_accidental snap chain a Ha)) H0 eq_refl eq_refl)
+    as (A1 & A2 & A3). fold w1 in A1, A2, A3.
+  destruct (fold_restore_origin w ms ms w1 (fun d H => H) A1 A2 A3) as (B1 & B2 & B3). fold w2 in B1, B2, B3.
+  (* the optional third stage only un-spends snapshot records and deletes *)
+  set (w3 := if del then _ else w2).
+  assert (H3 : (forall o, In o (w_outs w3) -> key_origin w ms o) /\ w_ctxs w3 = w_ctxs w /\ w_child w3 = w_child w).
+  { unfold w3. destruct del; [|auto].
+    assert (Hloc : forall a, In a (locked_on_chain snap chain) -> In a snap).
+    { unfold locked_on_chain. intros a Ha. apply in_flat_map in Ha as (d & _ & Ha).
+      destruct (find_match snap d) as [o|] eqn:E; [|contradiction].
+      destruct (status_eqb (r_status o) Locked); [|contradiction]. destruct Ha as [<-|[]].
+      unfold find_match in E. apply find_some in E as [E _]. exact E. }
+    destruct (fold_unspend_origin w ms (locked_on_chain snap chain) w2 (Hsnap _ Hloc) B1 B2 B3) as (C1 & C2 & C3).
+    set (wa := fold_left unspend (locked_on_chain snap chain) w2) in *.
+    generalize (filter (fun o => status_eqb (r_status o) Unconfirmed) snap). intros l.
+    revert C1 C2 C3. generalize wa. clear -w.
+    induction l as [|o r IH]; intros w0 C1 C2 C3; cbn [fold_left]; [auto|].
+    apply IH.
+    - intros x Hx. cbn [w_outs with_outs] in Hx. apply in_del_out in Hx. rewrite cancel_entry_outs in Hx. auto.
+    - cbn. unfold cancel_entry_of. destruct (r_tx o); [destruct (find _ _)|]; cbn; exact C2.
+    - cbn. unfold cancel_entry_of. destruct (r_tx o); [destruct (find _ _)|]; cbn; exact C3. }
+  destruct H3 as (D1 & D2 & D3).
+  set (found := found_max ms []).
+  assert (Hmono : forall a, lookup (w_child w) a <= lookup (w_child (restore_indices w3 found)) a).
+  { intros a. rewrite <- D3. apply restore_indices_mono. }
+  split.
+  - intros o Hin. rewrite restore_indices_outs in Hin. unfold key_below.
+    destruct (D1 o Hin) as [(o0 & A & B)|(d & A & B)].
+    + specialize (Hfo o0 A). unfold key_below in Hfo. rewrite B in Hfo.
+      eapply N.lt_le_trans; [exact Hfo|apply Hmono].
+    + rewrite B. eapply N.le_lt_trans; [apply (found_max_covers ms [] d A)|].
+      apply restore_indices_above. apply lookup_in. now apply found_max_has_key.
+  - intros c k m v Hc Hk.
+    assert (Hc' : In c (w_ctxs w)) by (rewrite restore_indices_ctxs, D2 in Hc; exact Hc).
+    specialize (Hfc c k m v Hc' Hk). unfold key_below in *. eapply N.lt_le_trans; [exact Hfc|apply Hmono].
+Qed.
